@@ -280,6 +280,20 @@ def invariant(entry, text, out, calls, where):
     return v
 
 
+BADTAG_KINDS = tuple(i for i, n in enumerate(KIND_NAMES) if n in ("badtag", "badtag!"))
+
+
+def fault_line_violation(entry, hist, parent_alive, dead, out):
+    """Catalogued fault 'malformed tag token' inside the searches: when the last line of a history is the
+    malformed tag line, its parent history was alive and consuming it raises ParserError, the error must be
+    reported at that very line (whatever blank / comment lines precede it)."""
+    if hist and hist[-1] in BADTAG_KINDS and parent_alive and dead and out[0] == "PE" and out[1] != len(hist):
+        return [({"subcheck": "fault-line", "clause": "wrong-line", "entry": "parse_" + entry, "site": out[2]},
+                 "malformed tag token on line %d is reported at line %r; history [%s]"
+                 % (len(hist), out[1], names_of(hist)))]
+    return []
+
+
 def outclass(out, hlen=None):
     """outcome class used for the abstraction cross-check (line numbers are judged by the invariant, not here)"""
     if out[0] == "PE":
